@@ -104,14 +104,14 @@ func runC07(p *Prog, r *Report) {
 		body := fanoutLoop(p, r, R, "snapshot", sm.fn, "recv.s.pipes")
 		_ = body
 		var snd Sel
-		for _, e := range sm.evs {
+		for _, e := range sm.All() {
 			if e.Kind == "select-send" && strings.HasSuffix(e.What, ".sendQ") {
 				snd = append(snd, e)
 			}
 		}
-		r.Check(len(snd) == 1 && strings.HasPrefix(snd[0].What, "φpipes[") && len(snd[0].Args) == 2 && snd[0].Args[1] == "nonblocking", R, "broadcast-to-snapshot", snd.Pos(p), "non-blocking send to every pipe of the snapshot", "the survey is not offered to every pipe of the snapshot: "+argsOf(snd))
+		r.Check(len(snd) == 1 && strings.HasSuffix(snd[0].What, "].sendQ") && !strings.HasPrefix(snd[0].What, "recv.s.pipes[") && len(snd[0].Args) == 2 && snd[0].Args[1] == "nonblocking", R, "broadcast-to-snapshot", snd.Pos(p), "non-blocking send to every pipe of the snapshot", "the survey is not offered to every pipe of the snapshot: "+argsOf(snd))
 		if len(snd) == 1 {
-			fanoutNoBypass(p, r, R, "broadcast", snd[0].In, nil, "")
+			fanoutNoBypass(p, r, R, "broadcast", snd[0], nil, "")
 		}
 		cl := sm.Ev("call", "mangos.(*Message).Clone")
 		r.Check(len(cl) == 1 && len(snd) == 1 && cl[0].In.Block() == snd[0].In.Block(), R, "clone-per-pipe", cl.Pos(p), "one Clone per pipe", "not one Clone per pipe")
@@ -153,7 +153,7 @@ func runC07(p *Prog, r *Report) {
 			}
 		}
 		var sel Sel
-		for _, e := range rm.evs {
+		for _, e := range rm.All() {
 			if e.Kind == "select-recv" {
 				sel = append(sel, e)
 			}
